@@ -262,6 +262,55 @@ def header_error_edge(ctx, rule='C11.O5e'):
     return res
 
 
+def buffered_flush(ctx, rule='C11.buffered-flush'):
+    """a buffered writer over the database file must be flushed, with the result propagated, before it goes out of scope:
+    BufWriter::drop flushes but ignores errors"""
+    res = []
+    try:
+        (cm,) = ctx.need('Tx::commit')
+    except AnchorError as e:
+        return [unresolved(rule, str(e))]
+    F = ctx.facts
+    n = 0
+    for fn in sorted(F.reachable_fns([cm]), key=lambda f: f.path):
+        wbs, fbs = [], []
+        for bb in sorted(fn.reachable_blocks()):
+            t = fn.term(bb)
+            c = callee_of(t) if t['k'] == 'call' else None
+            if not c:
+                continue
+            st = c.get('self_ty') or ''
+            if not (('BufWriter<' in st or 'LineWriter<' in st) and 'std::fs::File' in st):
+                continue
+            nm = last_seg(strip_generics(c['path']))
+            if nm in ('write', 'write_all', 'write_fmt', 'write_vectored'):
+                wbs.append(bb)
+            if nm in ('flush', 'into_inner'):
+                rs = result_switch(fn, bb)
+                if rs and rs['err'] is not None:
+                    kinds, div = _kind_walk(fn, rs['err'])
+                    if not ({k for k in kinds if k in (None, 'ok')}):
+                        fbs.append(bb)
+        for wb in wbs:
+            n += 1
+            reach = fn.reach_from(fn.succ(wb), avoid=set(fbs))
+            rets = [b for b in reach if fn.term(b)['k'] == 'return']
+            okret = False
+            for b in rets:
+                kinds, _ = _kind_walk(fn, wb)
+            if rets and any(True for b in rets):
+                res.append(bad(rule, '%s | buffered file write without a propagated flush' % fn.qual,
+                               '%s writes to the database file through a buffered writer at %s and can return without a flush() whose error is propagated: the last buffered bytes are written by '
+                               'the writer\'s destructor, which ignores I/O errors, so commit reports success (and writes the header) although a data page was never written' % (fn.qual, fn.loc(wb)),
+                               where=fn.loc(wb)))
+            else:
+                res.append(ok(rule, 'buffered write at %s is followed by a propagated flush on every path' % fn.loc(wb), sites=1))
+    ctx.stats['buffered_file_writes'] = n
+    if n == 0:
+        res.append(ok(rule, 'no buffered writer over the database file is used on the commit path (writes go to the File directly)', sites=0))
+    return res
+
+
 def run(ctx, tier):
     ob = commit.obligations(ctx)
     results = []
@@ -269,6 +318,7 @@ def run(ctx, tier):
     results += ob['O4'] + ob['O5']
     results += header_error_edge(ctx)
     results += remap_on_success(ctx)
+    results += buffered_flush(ctx)
     results += ob['O1'] + ob['O2'] + ob['O3']
     import c02
     results += c02.alternate_rule(ctx, rule='C11.alternate')
